@@ -7,6 +7,7 @@
 use crate::ops::Op;
 use crate::view::*;
 use crate::world::*;
+use dashu_base::{DivEuclid as _DE, DivRemEuclid as _DRE, RemEuclid as _RE};
 use dashu_base::{Abs, Approximation, BitTest, Inverse, Sign, Signed, SquareRoot};
 use dashu_float::{round::mode, round::Round, Context, FBig, Repr};
 use dashu_int::{IBig, UBig, Word};
@@ -144,7 +145,7 @@ where
                 ($tr:tt, $tra:tt) => {{
                     let x = &ww.p[a];
                     let y = &ip[b];
-                    match form % 9 {
+                    match form % 12 {
                         0 => x.clone() $tr y.clone(),
                         1 => x $tr y.clone(),
                         2 => x.clone() $tr y,
@@ -165,6 +166,18 @@ where
                             let z: FBig<R, B> = y.clone() $tr x.clone();
                             return finish_commuted(ww.p, pid, dst, z, env);
                         }
+                        9 => {
+                            let z: FBig<R, B> = y $tr x.clone();
+                            return finish_commuted(ww.p, pid, dst, z, env);
+                        }
+                        10 => {
+                            let z: FBig<R, B> = y.clone() $tr x;
+                            return finish_commuted(ww.p, pid, dst, z, env);
+                        }
+                        11 => {
+                            let z: FBig<R, B> = y $tr x;
+                            return finish_commuted(ww.p, pid, dst, z, env);
+                        }
                         _ => {
                             let z: FBig<R, B> = &FBig::<R, B>::from(y.clone()) $tr x;
                             return finish_commuted(ww.p, pid, dst, z, env);
@@ -177,6 +190,49 @@ where
                 "subi" => fi!(-, -=),
                 "muli" => fi!(*, *=),
                 _ => fi!(/, /=),
+            };
+            ww.p[dst] = r;
+            env.res(pid, dst);
+        }
+        "addu" | "subu" | "mulu" | "divu" => {
+            // float (op) unsigned big integer on either side; reference form converts first
+            if !tame(&ww.p[a]) || up[b].bit_len() > 4 * MAX_PREC {
+                return env.skip();
+            }
+            macro_rules! fu {
+                ($tr:tt, $tra:tt) => {{
+                    let x = &ww.p[a];
+                    let y = &up[b];
+                    match form % 12 {
+                        0 => x.clone() $tr y.clone(),
+                        1 => x $tr y.clone(),
+                        2 => x.clone() $tr y,
+                        3 => x $tr y,
+                        4 => {
+                            let mut t = x.clone();
+                            t $tra y.clone();
+                            t
+                        }
+                        5 => {
+                            let mut t = x.clone();
+                            t $tra y;
+                            t
+                        }
+                        6 => x $tr &FBig::<R, B>::from(y.clone()),
+                        // integer on the left
+                        7 => y.clone() $tr x.clone(),
+                        8 => y $tr x.clone(),
+                        9 => y.clone() $tr x,
+                        10 => y $tr x,
+                        _ => &FBig::<R, B>::from(y.clone()) $tr x,
+                    }
+                }};
+            }
+            let r: FBig<R, B> = match rest {
+                "addu" => fu!(+, +=),
+                "subu" => fu!(-, -=),
+                "mulu" => fu!(*, *=),
+                _ => fu!(/, /=),
             };
             ww.p[dst] = r;
             env.res(pid, dst);
@@ -287,21 +343,33 @@ where
                 return env.skip();
             }
             let pos = x.repr().sign() == Sign::Positive && !x.repr().is_zero();
+            let via_context = form % 2 == 1;
+            let ctx = x.context();
             let r = match rest {
+                "exp" if via_context => ctx.exp(x.repr()).value(),
                 "exp" => x.exp(),
+                "expm1" if via_context => ctx.exp_m1(x.repr()).value(),
                 "expm1" => x.exp_m1(),
                 "ln" => {
                     if !pos {
                         return env.skip();
                     }
-                    x.ln()
+                    if via_context {
+                        ctx.ln(x.repr()).value()
+                    } else {
+                        x.ln()
+                    }
                 }
                 _ => {
                     // ln_1p domain: x > -1
                     if x.repr().sign() == Sign::Negative {
                         return env.skip();
                     }
-                    x.ln_1p()
+                    if via_context {
+                        ctx.ln_1p(x.repr()).value()
+                    } else {
+                        x.ln_1p()
+                    }
                 }
             };
             ww.p[dst] = r;
@@ -319,6 +387,81 @@ where
                 "round" => x.round(),
                 _ => x.fract(),
             };
+            env.res(pid, dst);
+        }
+        "diveuclid" => {
+            // euclidean division of floats: quotient (IBig) -> I[dst], remainder -> pool[dst]
+            let (x, y) = (&ww.p[a], &ww.p[b]);
+            if !tame(x) || !tame(y) || (x.repr().exponent() - y.repr().exponent()).unsigned_abs() > 2000 {
+                return env.skip();
+            }
+            let (q, r): (IBig, FBig<R, B>) = match form % 8 {
+                0 => x.clone().div_rem_euclid(y.clone()),
+                1 => x.clone().div_rem_euclid(y),
+                2 => x.div_rem_euclid(y.clone()),
+                3 => x.div_rem_euclid(y),
+                4 => (x.clone().div_euclid(y.clone()), x.clone().rem_euclid(y.clone())),
+                5 => (x.clone().div_euclid(y), x.clone().rem_euclid(y)),
+                6 => (x.div_euclid(y.clone()), x.rem_euclid(y.clone())),
+                _ => (x.div_euclid(y), x.rem_euclid(y)),
+            };
+            ip[dst] = q;
+            ww.p[dst] = r;
+            env.res(Pool::I, dst);
+            env.res(pid, dst);
+        }
+        "split" => {
+            // documented as equivalent: split_at_point() and (trunc(), fract())
+            let x = &ww.p[a];
+            if !tame(x) {
+                return env.skip();
+            }
+            let d2 = (dst + 1) % NP;
+            let (t, f) = match form % 2 {
+                0 => x.clone().split_at_point(),
+                _ => (x.trunc(), x.fract()),
+            };
+            ww.p[dst] = t;
+            ww.p[d2] = f;
+            env.res(pid, dst);
+            env.res(pid, d2);
+        }
+        "powf" => {
+            let (x, y) = (&ww.p[a], &ww.p[b]);
+            let bits_per_digit: isize = (Word::BITS - (B - 1).leading_zeros()) as isize;
+            let mag = |v: &FBig<R, B>| v.repr().significand().bit_len() as isize + v.repr().exponent() * bits_per_digit;
+            if !tame(x) || !tame(y) || x.precision() == 0 || y.precision() == 0 || x.precision() > 120 || y.precision() > 120 {
+                return env.skip();
+            }
+            if x.repr().sign() != Sign::Positive || x.repr().is_zero() || mag(x).abs() > 8 || mag(y) > 5 || mag(y) < -200 {
+                return env.skip();
+            }
+            ww.p[dst] = match form % 2 {
+                0 => x.powf(y),
+                _ => Context::max(x.context(), y.context()).powf(x.repr(), y.repr()).value(),
+            };
+            env.res(pid, dst);
+        }
+        "sum" => {
+            // Sum / Product over the pool: borrowed iterator, owned iterator, explicit fold
+            if ww.p.iter().any(|v| !tame(v) || v.repr().exponent().unsigned_abs() > 500) {
+                return env.skip();
+            }
+            let r: FBig<R, B> = match form % 6 {
+                0 => ww.p.iter().sum(),
+                1 => ww.p.iter().product(),
+                2 => {
+                    let items: Vec<FBig<R, B>> = ww.p.iter().cloned().collect();
+                    items.into_iter().sum()
+                }
+                3 => {
+                    let items: Vec<FBig<R, B>> = ww.p.iter().cloned().collect();
+                    items.into_iter().product()
+                }
+                4 => ww.p.iter().fold(FBig::<R, B>::ZERO, |acc, v| acc + v),
+                _ => ww.p.iter().fold(FBig::<R, B>::ONE, |acc, v| acc * v),
+            };
+            ww.p[dst] = r;
             env.res(pid, dst);
         }
         "splitpoint" => {
@@ -611,6 +754,20 @@ pub fn exec_fd(w: &mut World, op: &Op, rest: &str, env: &mut Env) {
             w.f[dst] = r;
             env.res(Pool::F, dst);
         }
+        "rel16" | "rel9" | "rel4" => {
+            // equality and ordering in further bases (a repeated prime factor makes normalisation matter: 16 = 2^4,
+            // 9 = 3^2, 4 = 2^2): two routes to (mathematically related) values, dashu's ==/cmp against the exact relation
+            let (x, y) = (&w.f[a], &w.f[ix(op.b)]);
+            if !tame(x) || !tame(y) || x.repr().exponent().unsigned_abs() > 300 || y.repr().exponent().unsigned_abs() > 300 {
+                return env.skip();
+            }
+            let k = op.n.unsigned_abs() as usize;
+            match rest {
+                "rel16" => relation_in_base::<16>(x, y, k, op.m, env),
+                "rel9" => relation_in_base::<9>(x, y, k, op.m, env),
+                _ => relation_in_base::<4>(x, y, k, op.m, env),
+            }
+        }
         "rounding" => {
             // same value under another rounding mode and back: must not change value or precision
             let x = w.f[a].clone();
@@ -658,4 +815,67 @@ fn binop_in_mode<M: Round, R: Round, const B: Word>(x: &FBig<R, B>, y: &FBig<R, 
         _ => forms!(%, %=, rem),
     };
     r.with_rounding()
+}
+
+
+/// exact comparison of sig1 * B^e1 with sig2 * B^e2
+fn exact_cmp<const NB: Word>(p: &FBig<mode::Zero, NB>, q: &FBig<mode::Zero, NB>) -> Option<core::cmp::Ordering> {
+    if !p.repr().is_finite() || !q.repr().is_finite() {
+        return None;
+    }
+    let (s1, e1, s2, e2) = (p.repr().significand(), p.repr().exponent(), q.repr().significand(), q.repr().exponent());
+    if (e1 - e2).unsigned_abs() > 4000 {
+        return None;
+    }
+    let b = IBig::from(NB);
+    Some(if e1 >= e2 { (s1 * b.pow((e1 - e2) as usize)).cmp(s2) } else { s1.cmp(&(s2 * b.pow((e2 - e1) as usize))) })
+}
+
+fn relation_in_base<const NB: Word>(x: &FBig<mode::Zero, 2>, y: &FBig<mode::Zero, 2>, k: usize, m: i64, env: &mut Env) {
+    let prec = 1 + (m.unsigned_abs() as usize % 60);
+    let hx: FBig<mode::Zero, NB> = x.clone().with_base_and_precision::<NB>(prec).value();
+    let hy: FBig<mode::Zero, NB> = y.clone().with_base_and_precision::<NB>(prec).value();
+    let unit = IBig::from(NB);
+    let (p, q): (FBig<mode::Zero, NB>, FBig<mode::Zero, NB>) = match k % 8 {
+        0 => (hx.sqr(), &hx * &hx),
+        1 => (hx.cubic(), &hx * &hx * &hx),
+        2 => (hx.powi(IBig::from(2 + (k / 8) % 3)), {
+            let mut t = hx.clone();
+            for _ in 0..(1 + (k / 8) % 3) {
+                t = &t * &hx;
+            }
+            t
+        }),
+        3 => (&hx + &hy, &hy + &hx),
+        4 => (&hx * &hy, &hy * &hx),
+        5 => {
+            // the same number from un-normalised parts
+            let j = 1 + (k / 8) % 5;
+            (hx.clone(), FBig::from_parts(hx.repr().significand() * unit.pow(j), hx.repr().exponent() - j as isize))
+        }
+        6 => (hx.sqr().with_precision(0).value(), (&hx * &hx).with_precision(prec + 7).value()),
+        _ => (hx.clone() << (k / 8 % 7) as isize, hx.clone() * FBig::<mode::Zero, NB>::from_parts(IBig::ONE, (k / 8 % 7) as isize)),
+    };
+    let exact = match exact_cmp(&p, &q) {
+        Some(o) => o,
+        None => return env.skip(),
+    };
+    let (eq, ord, rev) = (p == q, p.cmp(&q), q.cmp(&p));
+    env.emit_i64("ord", ord as i64);
+    env.emit_u64("eq", eq as u64);
+    if env.cmp_oracle && (eq != (exact == core::cmp::Ordering::Equal) || ord != exact || rev != exact.reverse()) {
+        let d = untracked(|| {
+            format!(
+                "base {}: == says {}, cmp says {:?} / {:?}, values compare {:?}: {} vs {}",
+                NB,
+                eq,
+                ord,
+                rev,
+                exact,
+                text_fbig(&p),
+                text_fbig(&q)
+            )
+        });
+        env.violation = Some(untracked(|| ("float.cmp".to_string(), d)));
+    }
 }
